@@ -312,10 +312,7 @@ Proof.
   - destruct (handler_can_accept x); [|Ot]. cbn [fst]. apply RO_accept.
   - destruct (d_block x); [Ot|]. destruct (aget (d_group x) (f_groups w)); [apply IH|Ot].
   - destruct (negb (operational x && negb (d_block x))); [Ot|apply TL].
-  - destruct (rev (item_gpath it)) as [|gp rest]; [apply RO_fail|].
-    match goal with |- context[fold_left ?F ?l (w, false)] => pose proof (TL it l w false) as T; destruct (fold_left F l (w, false)) as [w1 ok] end.
-    cbn [fst] in T. destruct ok; cbn [fst]; [|exact T].
-    eapply RO_trans; [exact T|]. apply RO_one, o_everywhere.
+  - destruct (rev (item_gpath it)) as [|gp rest]; [apply RO_fail|apply TL].
 Qed.
 
 Lemma RO_try_downstream fuel w d it : RO w (fst (try_downstream fuel nw w d it)).
